@@ -112,9 +112,9 @@ def base_config(spec):
             "name": spec["name"],
             "service": {"sp": svc},
         }
-        if spec.get("enc_keys"):
-            cnf["encryption_keypairs"] = [{"key_file": key_file(k), "cert_file": cert_file(k)}
-                                          for k in spec["enc_keys"]]
+    if spec.get("enc_keys"):
+        cnf["encryption_keypairs"] = [{"key_file": key_file(k), "cert_file": cert_file(k)}
+                                      for k in spec["enc_keys"]]
     akey = spec.get("actual_key", spec["key"])
     cnf["key_file"] = key_file(akey)
     cnf["cert_file"] = cert_file(akey if spec.get("actual_cert") == "other" else spec["key"])
@@ -162,7 +162,7 @@ class Node(object):
         self.name = spec["name"]
         self.kind = spec["kind"]
         self.entity_id = entity_of(spec)
-        self.peer_view = {entity_of(p): p for p in peer_specs}
+        self.peer_view = {entity_of(p): copy.deepcopy(p) for p in peer_specs}
         self.build()
 
     def build(self):
